@@ -35,27 +35,33 @@ def gaussian_elimination(m):
     elimination"""
     # Shape of the matrix
     M, N = shape(m)
+    # r is the row that receives the next pivot; it only advances when column j
+    # actually has a pivot, so a column without one does not waste a row
+    r = 0
     for j in range(N - 1):
-        # We ignore everything above the jth row and everything left of
+        if r >= M:
+            break
+        # We ignore everything above the rth row and everything left of
         # the jth column (we assume they are 0 already)
-        pivot = find_pivot_row([row[j:] for row in m[j:]])
+        pivot = find_pivot_row([row[j:] for row in m[r:]])
         if pivot is None:
             continue
-        # find_pivot_row returns the index relative to j, so we need to
+        # find_pivot_row returns the index relative to r, so we need to
         # calculate the absolute index
-        pivot += j
+        pivot += r
         # Swap the rows
-        m[j], m[pivot] = m[pivot], m[j]
-        # Note that the pivot row is now m[j]!
+        m[r], m[pivot] = m[pivot], m[r]
+        # Note that the pivot row is now m[r]!
         # Eliminate everything else
-        for i in range(j + 1, M):
-            factor = m[i][j] / m[j][j] * -1
+        for i in range(r + 1, M):
+            factor = m[i][j] / m[r][j] * -1
             # Multiply the pivot row before adding them
-            multiplied_row = [factor * x for x in m[j]]
+            multiplied_row = [factor * x for x in m[r]]
             # Looks ugly, but we don't need numpy for it
             # Replace the ith row with the sum of the ith row and the
             # pivot row
             m[i] = [x + y for x, y in zip(m[i], multiplied_row)]
+        r += 1
     # m shold now be in row echelon form
     return m
 
